@@ -21,6 +21,9 @@ for x in json.load(open(v+'/mutants/index.json')):
 for d in sorted(glob.glob(v+'/seeded/*/meta.json')):
     m=json.load(open(d))
     print('seeded_'+os.path.basename(os.path.dirname(d)), m['property'], os.path.dirname(d)+'/patch.diff', 'detected')
+for d in sorted(glob.glob(v+'/neutral/*/meta.json')):
+    m=json.load(open(d))
+    print('neutral_'+os.path.basename(os.path.dirname(d)), ','.join(m['checks']), os.path.dirname(d)+'/patch.diff', 'silent')
 PY
 }
 list | while read -r NAME PROP PATCH EXPECT; do
@@ -34,6 +37,17 @@ list | while read -r NAME PROP PATCH EXPECT; do
     echo "{\"name\":\"$NAME\",\"property\":\"$PROP\",\"status\":\"$ST\"}" >> "$RES"; echo "$NAME: $ST (not a valid mutant)"; continue
   fi
   mkdir -p "$SCR/ev"
+  case "$NAME" in neutral_*)
+    # behaviour-preserving change (DESIGN.md section 13): every listed check must stay silent (exit 0)
+    BAD=""
+    for P in $(echo "$PROP" | tr ',' ' '); do
+      R=$(VERIF_REPO="$SCR/repo" VERIF_EVIDENCE_DIR="$SCR/ev" "$VERIF/check.sh" "$P" quick 2>&1); C=$?
+      [ $C -eq 0 ] && ! echo "$R" | grep -q "^VIOLATION" || BAD="$BAD $P(rc=$C)"
+    done
+    if [ -z "$BAD" ]; then ST=silent-as-expected; else ST="FALSE-ALARM:$BAD"; fi
+    echo "{\"name\":\"$NAME\",\"property\":\"$PROP\",\"expect\":\"silent\",\"status\":\"$ST\"}" >> "$RES"
+    echo "$NAME [$PROP]: $ST"; continue;;
+  esac
   R1=$(VERIF_REPO="$SCR/repo" VERIF_EVIDENCE_DIR="$SCR/ev" "$VERIF/check.sh" "$PROP" quick 2>&1); C1=$?
   R2=$(VERIF_REPO="$SCR/repo" VERIF_EVIDENCE_DIR="$SCR/ev" "$VERIF/check.sh" "$PROP" quick 2>&1); C2=$?
   SIG=$(echo "$R1" | grep -E "^  $PROP/" | head -3 | sed 's/ — .*//' | tr -d ' ' | paste -sd, -)
